@@ -228,22 +228,27 @@ def r4_mibcopy(chk):
                       'copied to os.path.join(dstDirectory, <canonical name>)')
     fn = model.func(MIBCOPY, 'getMibRevision')
     d, f = [a.arg for a in fn.args.args]
+    comp0 = [s for s in walk_no_nested(fn) if isinstance(s, ast.Assign) and isinstance(s.value, ast.Call) and
+             isinstance(s.value.func, ast.Attribute) and s.value.func.attr == 'compile' and
+             isinstance(s.targets[0], ast.Name)]
+    P = comp0[0].targets[0].id if comp0 else 'processed'
     loop = [n for n in fn.body if isinstance(n, ast.For)]
-    ok = len(loop) == 1 and norm(loop[0].iter) == 'processed'
+    ok = len(loop) == 1 and norm(loop[0].iter) == P
     if ok:
         nv = loop[0].target.id
         t = [n for n in loop[0].body if isinstance(n, ast.If)]
-        ok = len(t) == 1 and norm(t[0].test) == "processed[%s] == 'compiled' and processed[%s].path == 'file://' + " \
-                                                "os.path.join(%s, %s)" % (nv, nv, d, f)
+        ok = len(t) == 1 and norm(t[0].test) == "%s[%s] == 'compiled' and %s[%s].path == 'file://' + " \
+                                                "os.path.join(%s, %s)" % (P, nv, P, nv, d, f)
         rets = [x for x in walk_no_nested(t[0]) if isinstance(x, ast.Return)] if t else []
         ok = ok and len(rets) == 1 and norm(rets[0].value).startswith('(%s, ' % nv)
         rev = [s for s in walk_no_nested(t[0]) if isinstance(s, ast.Assign) and 'strptime' in norm(s.value)] if t else []
-        ok = ok and len(rev) == 1 and norm(rev[0].value) == "datetime.strptime(processed[%s].revision, '%%Y-%%m-%%d %%H:%%M')" % nv
+        ok = ok and len(rev) == 1 and norm(rev[0].value) == "datetime.strptime(%s[%s].revision, '%%Y-%%m-%%d %%H:%%M')" % (P, nv)
     chk.ob('C20.R4', 'getMibRevision/selects-the-file-just-read', ok, where(mod, fn),
            'name and revision must come from the compiled status whose path is the file read')
     last = fn.body[-1]
     chk.ob('C20.R4', 'getMibRevision/unreadable-raises', isinstance(last, ast.Raise), where(mod, fn), '')
-    comp = [c for c in walk_no_nested(fn) if isinstance(c, ast.Call) and norm(c.func) == 'mibCompiler.compile']
+    comp = [c for c in walk_no_nested(fn) if isinstance(c, ast.Call) and isinstance(c.func, ast.Attribute) and
+            c.func.attr == 'compile']
     ok = len(comp) == 1 and norm(comp[0].args[0]) == f
     chk.ob('C20.R4', 'getMibRevision/compiles-that-file', ok, where(mod, fn), '')
     srcs = [c for c in walk_no_nested(fn) if isinstance(c, ast.Call) and dotted_name(c.func) == 'FileReader']
